@@ -637,6 +637,49 @@ func cmdCancelLeak(args []string) error {
 		}
 		w.Close()
 	}
+	// a storage backend whose Store keeps failing, with storage_retry_forever (and with a finite retry budget):
+	// cancelling must still make the sync loop return
+	for sc := 0; sc < 4; sc++ {
+		native := sc%2 == 0
+		w, err := NewWorld(native, nil, Concs()[0], KeyConcs()[0], R)
+		if err != nil {
+			return err
+		}
+		fb := &faultBucket{Interface: memory.New(), loadGate: map[string]chan struct{}{}}
+		fb.failStores = 1 << 30
+		w.Bucket = fb
+		if err := w.AddInst(1, false); err != nil {
+			return err
+		}
+		in := w.Insts[1]
+		if native {
+			_ = w.NativeWrite(1, 1, Ver{TS: 2, Val: 1})
+		} else {
+			_ = w.ShadowPut(1, 1, 1)
+		}
+		c := w.config(in.Name)
+		c.StorageRetryForever = sc < 2
+		c.StorageRetryCount = 3
+		c.StorageRetryInterval = 2 * time.Millisecond
+		s, err := newSyncerWith(w, in, c)
+		if err != nil {
+			return err
+		}
+		ctx, cancel := context.WithCancel(context.Background())
+		done := make(chan error, 1)
+		go func() { done <- s.Sync(ctx) }()
+		time.Sleep(60 * time.Millisecond)
+		cancel()
+		R.Add(1, 1, 1)
+		select {
+		case <-done:
+		case <-time.After(5 * time.Second):
+			R.Bad(map[string]interface{}{"scenario": "store-keeps-failing", "retry_forever": c.StorageRetryForever, "native": native},
+				map[string]interface{}{"prop": "C17", "class": "loop-does-not-return", "scenario": "store-keeps-failing"},
+				"Store keeps failing (retry_forever=%v): the sync loop did not return within 5 s after cancellation", c.StorageRetryForever)
+		}
+		w.Close()
+	}
 	R.Sample("2 instances with receiver, downloaders, cleaner, sweeper and application writers; cancelled after 60-180 ms")
 	return Emit(R)
 }
